@@ -107,8 +107,8 @@ def block_roles(run: Run, D: Blocks):
                 roles.setdefault("diagB", []).append(s)
             else:
                 roles.setdefault("other", []).append(s)
-        elif isinstance(v, Arr) and v.ndim == 2 and v.elem == sym.ZERO:
-            roles.setdefault("zero", []).append(s)  # an explicit diagonal-to-diagonal block (np.block assembly)
+        elif (isinstance(v, Arr) and v.ndim == 2 and v.elem == sym.ZERO) or (isinstance(v, Sc) and v.e == sym.ZERO):
+            roles.setdefault("zero", []).append(s)  # an explicit diagonal-to-diagonal block (np.block / D[M:, N:] = 0)
         elif isinstance(v, Arr) and v.ndim == 2:
             roles.setdefault("cross", []).append(s)
         else:
@@ -166,12 +166,24 @@ def check_tiling(rep, rule, run: Run, D: Blocks, fi):
         ok = False
     else:
         rep.discharged(rule, fi, fi.node, "augmented matrix is (M+N)×(M+N)", derived=sym.show(D.shape[0]))
+    if getattr(D, "opaque_stores", None):
+        rep.unmodelled(rule, fi, D.opaque_stores[0], "a store into the cost matrix is not modelled: its contents are "
+                                                     "not known from here on")
+        return
     if D.base != sym.ZERO:
-        rep.refuted(rule, fi, fi.node, f"untouched remainder (diagonal–diagonal block) is {sym.show(D.base)}, not 0",
-                    construct=f"base of cost matrix in {fi.qualname}")
+        if roles0.get("zero"):
+            rep.discharged(rule, fi, roles0["zero"][0]["node"],
+                           f"the matrix is pre-filled with {sym.show(D.base)[:40]} and the diagonal-to-diagonal corner is "
+                           f"written explicitly (position checked below)")
+        else:
+            rep.refuted(rule, fi, fi.node, f"untouched remainder (diagonal–diagonal block) is {sym.show(D.base)}, not 0",
+                        construct=f"base of cost matrix in {fi.qualname}")
     for s in D.stores:
         ext = (sym.sub(s["r1"], s["r0"]), sym.sub(s["c1"], s["c0"]))
         vs = s["vshape"]
+        if isinstance(s["val"], Sc):
+            rep.discharged(rule, fi, s["node"], "a scalar is broadcast over the slice")
+            continue
         if vs is None or len(vs) != 2:
             rep.unmodelled(rule, fi, s["node"], "shape of the stored block is unknown")
             continue
